@@ -381,6 +381,7 @@ def shards(tier, seed):
         for k in range(2):
             out.append(('compositor', ver, k, tier, seed))
         out.append(('attrfixed', ver, tier, seed))
+        out.append(('unionpat', ver, tier, seed))
         if ver == '11':
             out.append(('opencontent', ver, tier, seed))
         out.append(('facets', ver, tier, seed))
@@ -409,6 +410,35 @@ def run_shard(desc):
                     for r in judge_content(ver, b, d, st, False, op):
                         core.report(st, PROPERTY, r)
         st.sample({'ver': ver, 'bases from': 'small scope, depth 2', 'example': cm.show(pool[len(pool) // 3])})
+        return st
+    if desc[0] == 'unionpat':
+        # a restriction of a restriction of a union, a pattern at each step: everything valid for the second step is
+        # valid for the first (purely metamorphic: the library's own two verdicts)
+        _, ver, tier, seed = desc
+        pats = [p for p in c02.COMBO_PATTERNS if p]
+        for members in (['int', 'NCName'], ['boolean', 'decimal', 'date'], ['int', 'string']):
+            for p1 in pats:
+                for p2 in pats:
+                    st.case()
+                    xsd = ('<xs:schema xmlns:xs="%s"><xs:simpleType name="U"><xs:union memberTypes="%s"/></xs:simpleType>'
+                           '<xs:simpleType name="R1"><xs:restriction base="U"><xs:pattern value="%s"/></xs:restriction>'
+                           '</xs:simpleType><xs:simpleType name="R2"><xs:restriction base="R1"><xs:pattern value="%s"/>'
+                           '</xs:restriction></xs:simpleType><xs:element name="e1" type="R1"/><xs:element name="e2" type="R2"/>'
+                           '</xs:schema>' % (XS, ' '.join('xs:' + m for m in members), p1, p2))
+                    try:
+                        s = cls_of(ver)(xsd)
+                    except xmlschema.XMLSchemaException:
+                        continue
+                    st.nt(('unionpat', ver, tuple(members), p1, p2))
+                    for v in c02.COMBO_POOL:
+                        if s.is_valid('<e2>%s</e2>' % v) and not s.is_valid('<e1>%s</e1>' % v):
+                            core.report(st, PROPERTY, {
+                                'kind': 'restriction_widens_union_pattern',
+                                'input': {'ver': ver, 'members': members, 'p1': p1, 'p2': p2, 'value': v},
+                                'expected': 'valid for the base restriction step', 'observed': 'valid for R2, invalid for R1',
+                                'classes': [], 'key': 'unionpat|%s|%s|%s|%s' % (ver, members, p1, p2)})
+                            break
+        st.sample({'ver': ver, 'union pattern chains': '3 member sets x 8 x 8 patterns x %d values' % len(c02.COMBO_POOL)})
         return st
     if desc[0] == 'opencontent':
         for default in (None, 'interleave', 'suffix'):
@@ -527,6 +557,17 @@ def replay(record):
     if k.startswith('restriction_widens_content'):
         return judge_content(inp['ver'], cm.tolist(inp['base']), cm.tolist(inp['derived']), st, inp.get('redefine', False),
                              inp.get('op', '?'))
+    if k == 'restriction_widens_union_pattern':
+        xsd = ('<xs:schema xmlns:xs="%s"><xs:simpleType name="U"><xs:union memberTypes="%s"/></xs:simpleType>'
+               '<xs:simpleType name="R1"><xs:restriction base="U"><xs:pattern value="%s"/></xs:restriction></xs:simpleType>'
+               '<xs:simpleType name="R2"><xs:restriction base="R1"><xs:pattern value="%s"/></xs:restriction></xs:simpleType>'
+               '<xs:element name="e1" type="R1"/><xs:element name="e2" type="R2"/></xs:schema>'
+               % (XS, ' '.join('xs:' + m for m in inp['members']), inp['p1'], inp['p2']))
+        s = cls_of(inp['ver'])(xsd)
+        v = inp['value']
+        if s.is_valid('<e2>%s</e2>' % v) and not s.is_valid('<e1>%s</e1>' % v):
+            return [dict(record)]
+        return []
     if k == 'restriction_widens_open_content':
         return judge_open_content(inp['default'], inp['base_oc'], inp['derived_oc'], cm.tolist(inp['base']),
                                   cm.tolist(inp['derived']), st)
